@@ -22,6 +22,13 @@ def dump (s : Plan) : String :=
     ++ " f=" ++ joinWith "|" (s.finals.map showDS)
     ++ (if finished s then " done" else "")
 
+def showIv (i : Iv) : String :=
+  s!"{i.startContig}:{i.startPos}-{i.endContig}:{i.endPos}{if i.includesStart then "[" else "("}{if i.includesEnd then "]" else ")"}"
+
+def ivsOf : List Nat → List Iv
+  | a :: b :: c :: d :: e :: f :: t => ⟨a, b, c, d, e == 1, f == 1⟩ :: ivsOf t
+  | _ => []
+
 def pairs : List Nat → List (Nat × Nat)
   | a :: b :: t => (a, b) :: pairs t
   | _ => []
@@ -30,7 +37,9 @@ def pairs : List Nat → List (Nat × Nat)
 * `part <L> <size>` → `s-e,s-e,…` of `calc_parts` for a contig of length `L`, or `err`
 * `init <bf> <batch> <hasNames 0|1> G <gvcf id>* V (<id> <n_samples>)* F (<n> <floor(log(n, bf)) as computed by Python>)*`
   → dump of the constructed plan, or `err` (ValueError)
-* `step` / `reload` → dump after `step()` / after `save()`; `load()` -/
+* `step` / `reload` → dump after `step()` / after `save()`; `load()`
+* `ivrt (<startContig> <startPos> <endContig> <endPos> <includesStart> <includesEnd>)*` → the import intervals after
+  `save()`; `load()`, as `c:p-c:p` followed by `[`/`(` and `]`/`)` -/
 def stepLine (st : St) (line : String) : St × String :=
   match words line with
   | ["part", l, sz] =>
@@ -55,6 +64,10 @@ def stepLine (st : St) (line : String) : St × String :=
       | some p => ({ plan := some p, anomalies }, dump p)
       | none => ({ plan := none, anomalies }, "err")
     | _, _, _, _, _ => (st, "bad-op")
+  | "ivrt" :: rest =>
+    match nats? rest with
+    | some ns => (st, joinWith "," ((reloadIntervals (ivsOf ns)).map showIv))
+    | none => (st, "bad-op")
   | ["step"] =>
     match st.plan with
     | some p => let p' := step (flogWith st.anomalies p.bf) p; ({ st with plan := some p' }, dump p')
